@@ -34,7 +34,7 @@ class TMolecules(TSpec):
         n = max(n, self.min_n)
         cols = ""
         if self.features:
-            cols = ", features={" + ", ".join(f"{c!r}: ((np.arange({n}) * 3 + 2) % 5) * {i + 2}.5" for i, c in enumerate(self.features)) + "}"
+            cols = ", features={" + ", ".join(f"{c!r}: ((np.arange({n}) * 3 + 2) % 5) * {i + 2}.5 + 0.1" for i, c in enumerate(self.features)) + "}"
         rot = f"_Rotation.random({n}, random_state=7)"
         if model.get(f"{name}_rotations") == "identity":
             rot = f"_Rotation.identity({n})"
@@ -193,7 +193,7 @@ class TRotBatch(TSpec):
     def src(self, name, model):
         n = max(int(_mget(model, self.count_name, 3)), 0)
         if model.get(f"{name}_rotations") == "quarter_turn":
-            return f"_Rotation.from_matrix(np.array([[[0., -1, 0], [1, 0, 0], [0, 0, 1]]] * {n}))"
+            return f"_Rotation.from_matrix(np.array([[[0., -1, 0], [1, 0, 0], [0, 0, 1]]] * {n}).reshape(-1, 3, 3))"
         return f"_Rotation.random({n}, random_state=11)"
 
 
